@@ -65,7 +65,11 @@ def stepM (isV2 : Bool) (minD maxD : Nat) (m : MSt) (t : Tok) : MSt :=
     -- a failure injected after a stop request need not be the cause the run ends with
     if k = "F" ∧ !m.stopped then { m with fatalInj := true, fatalSeenStatus := false, userStop := false, sysStop := false, injSince := true }
     else { m with userStop := false, sysStop := false, injSince := true }
-  | ["DTF", _] => { m with userStop := false, sysStop := false, injSince := true }
+  | ["DTF", k] =>
+    -- a FATAL teardown error is the only error of that run's end: whatever stop / shutdown is in
+    -- progress, the pipeline must end Degraded with it (C10 terminal_status_matches_cause)
+    if k = "F" then { m with fatalInj := true, fatalSeenStatus := false, userStop := false, sysStop := false, injSince := true }
+    else { m with userStop := false, sysStop := false, injSince := true }
   | ["OF"] => { m with injSince := true }
   | ["L", "starting"] =>
     if m.userStartPending then
